@@ -449,15 +449,84 @@ func enumMMUCases(thorough bool, yield func(mmuCase) bool) {
 			return
 		}
 	}
+	// insertion-order families: the tables above are pre-populated walking the
+	// frames upward; here the same pages are inserted in another order (the
+	// table keeps per-process lists in insertion order). quick: every table
+	// with >= 2 pages inserted walking the frames downward; thorough: every
+	// non-identity permutation of the insertion order, and the downward order
+	// with streams of length 2.
+	type ofamily struct {
+		n        int
+		allPerms bool
+	}
+	ofams := []ofamily{{1, false}}
+	if thorough {
+		ofams = []ofamily{{1, true}, {2, false}}
+	}
+	for _, f := range ofams {
+		ok := mmuTables(4, 4, func(pre []mmuPre) bool {
+			if len(pre) < 2 {
+				return true
+			}
+			return mmuOrders(pre, f.allPerms, func(ordered []mmuPre) bool {
+				return mmuStreams(f.n, func(reqs []mmuReq) bool { return emit(ordered, reqs, false) })
+			})
+		})
+		if !ok {
+			return
+		}
+	}
+}
+
+// mmuOrders yields the insertion orders of a table other than the given one:
+// the reversed order only, or every non-identity permutation.
+func mmuOrders(pre []mmuPre, all bool, yield func([]mmuPre) bool) bool {
+	n := len(pre)
+	if !all {
+		rev := make([]mmuPre, n)
+		for i, p := range pre {
+			rev[n-1-i] = p
+		}
+		return yield(rev)
+	}
+	idx := make([]int, 0, n)
+	used := make([]bool, n)
+	var rec func() bool
+	rec = func() bool {
+		if len(idx) == n {
+			identity := true
+			out := make([]mmuPre, n)
+			for i, j := range idx {
+				out[i] = pre[j]
+				identity = identity && i == j
+			}
+			return identity || yield(out)
+		}
+		for j := 0; j < n; j++ {
+			if used[j] {
+				continue
+			}
+			used[j] = true
+			idx = append(idx, j)
+			ok := rec()
+			idx = idx[:len(idx)-1]
+			used[j] = false
+			if !ok {
+				return false
+			}
+		}
+		return true
+	}
+	return rec()
 }
 
 func init() {
 	lib.Register(&lib.Check{
 		ID:    "C27",
 		Level: "exploration",
-		Rule: "every (pre-populated table, request stream, configuration): tables = assignments of a subset of frames {0..3} to distinct (PID in {1,2}, vpage in {0,1,2}) pairs (page-aligned, table page size 4 KiB) plus 6 tables in which two processes share a frame; 'all' = all 1045 assignments + the 6, 'canonical' = the 505 assignments in which, walking the frames upward, the third and fourth page have a greater (PID,vpage) than the page before + the 6, 'increasing' = the 185 assignments with >= 2 pages and (PID,vpage) increasing along the frames + the 6; " +
+		Rule: "every (pre-populated table, request stream, configuration): tables = assignments of a subset of frames {0..3} to distinct (PID in {1,2}, vpage in {0,1,2}) pairs (page-aligned, table page size 4 KiB) plus 6 tables in which two processes share a frame; 'all' = all 1045 assignments + the 6, 'canonical' = the 505 assignments in which, walking the frames upward, the third and fourth page have a greater (PID,vpage) than the page before + the 6, 'increasing' = the 185 assignments with >= 2 pages and (PID,vpage) increasing along the frames + the 6; these are inserted walking the frames upward; 'reordered' = all tables with >= 2 pages inserted walking the frames downward (quick) or in every other permutation (thorough), since the table keeps per-process lists in insertion order; " +
 			"configurations = MaxRequestsInFlight {1,2,4} x Top port capacity {1,4} (incoming and outgoing) x walk latency {0,2} x {requests handed over back to back as the port accepts them (concurrent walks, also of the same page), each only after all earlier ones were answered} x {requester takes all responses every cycle, one response every 4th cycle (full outgoing buffer: finished walks are retried)} = 48, 'adversarial' = the 6 with latency 2, back to back, slow requester; " +
-			"quick: every stream of length <= 2 over PID x vpage on the canonical tables x 48, length 3 on the 25 tables with <= 1 page x 48, length 3 on the increasing tables x adversarial; thorough: length <= 2 on all tables x 48, length 3 on the canonical tables x 48, length 4 on the tables with <= 1 page x 48, length 4 on the increasing tables x adversarial; " +
+			"quick: every stream of length <= 2 over PID x vpage on the canonical tables x 48, length 3 on the 25 tables with <= 1 page x 48, length 3 on the increasing tables x adversarial, length 1 on the reordered (downward) tables x adversarial; thorough: length <= 2 on all tables x 48, length 3 on the canonical tables x 48, length 4 on the tables with <= 1 page x 48, length 4 on the increasing tables x adversarial, length 1 on every reordered table x adversarial, length 2 on the downward tables x adversarial; " +
 			"a real MMU with auto allocation on a real serial engine and a real vm.PageTable (behind a recording wrapper) is driven by a requester that is an event per cycle on the same engine, until every request is answered; oracle on the final table: every (PID,vpage) that was answered has a mapping, no requested page has two, no never-requested page appears, every auto-allocated page is an aligned valid table-size page whose [PAddr,PAddr+size) is disjoint from every other page, and every response carries the table's mapping. Each tuple is a distinct case; counters report how many cases had concurrent walks and retried walks.",
 		Sharded:     true,
 		MinOutcomes: 30,
